@@ -102,8 +102,9 @@ def forbidden_hits():
     return hits
 
 
-def prove(modules):
-    """lake build the property modules; audit axioms of every theorem in them.
+def prove(modules, recheck=False):
+    """lake build the property modules; audit axioms of every theorem in them; with `recheck` the compiled modules are
+    additionally replayed by leanchecker (Lean's independent re-checker of .olean files).
     Returns dict(obligations=[{name, ok, axioms}], build_ok, build_log, failed=[names])"""
     res = {"obligations": [], "build_ok": True, "build_log": "", "failed": []}
     t = time.time()
@@ -159,6 +160,12 @@ def prove(modules):
     hits = forbidden_hits()
     if hits:
         res["failed"] += ["forbidden construct: " + h for h in hits]
+    if recheck:
+        for m in modules:
+            rc, out, err = run(["lake", "env", "leanchecker", m], cwd=LEAN)
+            res.setdefault("leanchecker", {})[m] = rc
+            if rc != 0:
+                res["failed"].append(f"leanchecker rejects {m}: {(out + err)[-300:]}")
     return res
 
 
